@@ -225,6 +225,11 @@ func (o jsonObject) patch(
 	if len(pathAhead) == 0 {
 		newValue := singleValue(newValues)
 		if strategy == mergePatchStrategy {
+			if no, ok := newValue.(jsonObject); ok && len(no) == 0 {
+				// RFC 7386: an empty object merges nothing into
+				// an object. It only replaces non-objects.
+				return o, nil
+			}
 			return newValue, nil
 		}
 		oldValue := singleValue(oldValues)
